@@ -73,6 +73,12 @@ func (ch *dagChannel) load(c channel) error {
 
 func (ch *dagChannel) reportValues(ins map[string]any) error {
 	if ch.Skipped {
+		// a skipped node never reads its inputs: close the streams so that their sources are released
+		for _, v := range ins {
+			if sr, ok := v.(streamReader); ok {
+				sr.close()
+			}
+		}
 		return nil
 	}
 
